@@ -585,6 +585,8 @@ var Alphabet = []TypeAtom{
 	{"LBox[int]", "", "struct-local-generic"},
 	{"ext.Box[int]", "Box[int]", "struct-imported-generic"},
 	{"[]LPair[string, int]", "", "slice-struct-generic"},
+	{"[]struct{ X int `json:\"a\"` }", "[]struct{ X int `json:\"a\"` }", "slice-anonymous-struct-tagged"},
+	{"[]struct{ X int `json:\"b\"` }", "[]struct{ X int `json:\"b\"` }", "slice-anonymous-struct-tagged"},
 	{"[]int", "[]int", "slice-basic"},
 	{"[]string", "[]string", "slice-basic"},
 	{"[]int64", "[]int64", "slice-basic"},
